@@ -577,7 +577,7 @@ func (d *dhcpRun) restartProbe(s *packet.Session, rec *mon.Recorder, file string
 	renewed := 0
 	for _, cl := range cls {
 		id := string(cl.mac[:])
-		if cid := d.clientID(cl); cid != nil {
+		if cid := d.clientID(cl); len(cid) > 0 { // a zero length identifier: known by its hardware address
 			id = string(cid)
 		}
 		ip, ok := shadow[id]
@@ -633,7 +633,7 @@ func (d *dhcpRun) restartProbe(s *packet.Session, rec *mon.Recorder, file string
 		probes = append(probes, probe{mac: refdec.MAC{0x02, 0xc9, 0, 0, 0, 10}, want: shadow[cl], who: "a new client asking for it"})
 		for _, x := range cls {
 			cid := d.clientID(x)
-			if (cid != nil && string(cid) == cl) || (cid == nil && string(x.mac[:]) == cl) {
+			if (len(cid) > 0 && string(cid) == cl) || (len(cid) == 0 && string(x.mac[:]) == cl) {
 				probes = append(probes, probe{mac: x.mac, id: []byte{0, 'o', 't', 'h', 'e', 'r'}, want: shadow[cl], who: "another client identifier on the bound client's network card asking for it"})
 				break
 			}
